@@ -50,7 +50,7 @@ struct Dom : CompositeBase
         auto hist = parse_history(cid.substr(cid.find('|') + 1));
         const std::string last = hist.empty() ? "empty" : hist.back().f;
         auto viol = [&](const std::string& inv, const std::string& what) { a.violation(fam + "|" + inv, "[" + schema_name(sch) + "] " + what, cid); };
-        std::string o1, o2, mem_obs;
+        std::string o1, o1_tail, o2, mem_obs;
         bool ok = true;
         try
         {
@@ -78,6 +78,20 @@ struct Dom : CompositeBase
                 }
                 o1 = observe(wd, true, false);
                 mem_obs = observe(wmem, true, false);
+                // A tail that the exploration cannot produce (it changes no stored state): calls that throw inside the library, followed by
+                // one more successful write. If a failed call leaves a transaction open, everything written afterwards is lost on close.
+                for (auto& t : wd.db.tracks())
+                {
+                    (void)wd.guarded([&] { t.set_hot_cue_at(8, dj::hot_cue{"x", 1.0, {}}); });
+                    (void)wd.guarded([&] { t.set_loop_at(-1, std::nullopt); });
+                }
+                {
+                    auto roots = wd.db.root_crates();
+                    if (roots.size() >= 2) (void)wd.guarded([&] { roots[0].set_name(roots[1].name()); });  // 2.x: UNIQUE violation inside the update's transaction
+                    for (auto& c : wd.db.crates()) (void)wd.guarded([&] { c.set_parent(c); });
+                }
+                (void)wd.guarded([&] { wd.db.create_root_crate("written after failed calls"); });
+                o1_tail = observe(wd, true, false);
             }  // every handle released here
             if (!seam::opened_handles().empty() && false) {}
             // on-disk and in-memory libraries behave alike (differential: same history, same observation apart from the uuid)
@@ -95,7 +109,7 @@ struct Dom : CompositeBase
                 o2 = observe(wl, true, false);
                 if (wl.loaded_schema != sch) viol("loaded_schema", "load_database reported schema " + (wl.loaded_schema == eng::engine_schema::schema_3_0_0 ? std::string("(not set)") : schema_name(wl.loaded_schema)) + " for a library created as " + schema_name(sch));
             }
-            if (o1 != o2) { ok = false; viol("observation_changed_by_reopen", first_diff(o1, o2)); }
+            if (o1_tail != o2) { ok = false; viol("observation_changed_by_reopen", first_diff(o1_tail, o2)); }
             // create_or_load on an existing library loads it, whatever schema is asked for
             for (int other = 0; other < 2; ++other)
             {
@@ -185,7 +199,8 @@ int run(const Options& o)
         "The composite alphabet (create_track from two snapshots, update with two snapshots, set_title / set_hot_cues / set_rating, remove_track, create_root_crate, create_sub_crate, set_name, "
         "set_parent, add_track, crate.remove_track, clear_tracks, remove_crate; <= 2 live tracks, <= 3 live crates; three seeds) is explored breadth-first in memory to enumerate every distinct "
         "state up to the depth bound. For EACH distinct state its history is replayed on an on-disk library created with create_database(dir, schema) in a tmpfs scratch directory; the full "
-        "public-API observation (every getter and snapshot of every track, every crate query, uuid, version name) is taken, all handles are released, load_database(dir, loaded) is called and "
+        "public-API observation (every getter and snapshot of every track, every crate query, uuid, version name) is taken; then calls that throw inside the library (slot index 8 / -1, rename to a "
+        "sibling's name, self-parent) and one more successful write follow, and the observation is taken again; all handles are released, load_database(dir, loaded) is called and "
         "the observation repeated: both must be identical, `loaded` must be the creating schema, the on-disk observation must equal the in-memory one for the same history, database_exists must "
         "be true, create_or_load_database must report created = false (also when a schema of the other generation is requested) and leave the library unchanged, and on an empty directory "
         "created = true. Non-trivial = distinct observations.";
